@@ -357,6 +357,14 @@ def EnumVal.toJson : EnumVal → Json
   | .s v => .str v
   | .i v => .int v
 
+/-- one item of a dict passed to `json.dumps`: the key must be a str (or a str-enum member) -/
+def rawEntry (r : PyVal → Except Err Json) (kv : PyVal × PyVal) : Except Err (Name × Json) := do
+  let k ← (match kv.1 with
+    | .str s => Except.ok s
+    | .enum _ (.s s) => .ok s
+    | _ => .error (.unspecified "non-str dict key"))
+  .ok (k, ← r kv.2)
+
 /-- What `json.dumps` makes of a value the converter returned unchanged (identity handler). -/
 def rawJson : Nat → PyVal → Except Err Json
   | 0, _ => .error .fuel
@@ -373,12 +381,7 @@ def rawJson : Nat → PyVal → Except Err Json
     | .list xs => do .ok (.arr (← mapE (rawJson n) xs))
     | .tuple xs => do .ok (.arr (← mapE (rawJson n) xs))
     | .dict kvs => do
-      let ps ← mapE (fun (kv : PyVal × PyVal) => do
-        let k ← (match kv.1 with
-          | .str s => Except.ok s
-          | .enum _ (.s s) => .ok s
-          | _ => .error (.unspecified "non-str dict key"))
-        .ok (k, ← rawJson n kv.2)) kvs
+      let ps ← mapE (rawEntry (rawJson n)) kvs
       .ok (.obj ps)
 
 def lookupAttr (fields : List (Name × PyVal)) (a : Name) : Option PyVal :=
@@ -414,6 +417,21 @@ def unstructFields (recur : Option PyTy → PyVal → Except Err Json) (vals : L
           | .ok rest => .ok ((f.wireU, x) :: rest)
       else unstructFields recur vals fs
 
+/-- one item of a mapping: key handler (its result must be a str), value handler -/
+def unstructEntry (rk rv : PyVal → Except Err Json) (kv : PyVal × PyVal) : Except Err (Name × Json) := do
+  let k ← dictKey (← rk kv.1)
+  .ok (k, ← rv kv.2)
+
+def PyVal.isNoneV : PyVal → Bool
+  | .none => true
+  | _ => false
+
+/-- the handler `make_dict_unstructure_fn` / the Optional rule uses for an inner annotation:
+    `Any` dispatches on the runtime class -/
+def PyTy.handlerOf : PyTy → Option PyTy
+  | .any => Option.none
+  | x => some x
+
 def zipE {α β γ} (f : α → β → Except Err γ) : List α → List β → Except Err (List γ)
   | a :: as, b :: bs => do
     let c ← f a b
@@ -436,20 +454,14 @@ def unstruct (E : Env) : Nat → Option PyTy → PyVal → Except Err Json
      | .list xs => do .ok (.arr (← mapE (unstruct E n Option.none) xs))
      | .tuple xs => do .ok (.arr (← mapE (unstruct E n Option.none) xs))
      | .dict kvs => do
-       let ps ← mapE (fun (kv : PyVal × PyVal) => do
-         let k ← dictKey (← unstruct E n Option.none kv.1)
-         .ok (k, ← unstruct E n Option.none kv.2)) kvs
+       let ps ← mapE (unstructEntry (unstruct E n Option.none) (unstruct E n Option.none)) kvs
        .ok (.obj ps)
      | _ => rawJson (n + 1) v)
   | n + 1, some ty, v =>
     match ty with
     | .union ts =>
       (match PyTy.optionalOf ts with
-       | some x => (match v with
-         | .none => .ok .null
-         | _ => (match x with
-           | .any => unstruct E n Option.none v
-           | _ => unstruct E n (some x) v))
+       | some x => if v.isNoneV then .ok .null else unstruct E n x.handlerOf v
        | Option.none => unstruct E n Option.none v)
     | .any => unstruct E n Option.none v
     | .seq t =>
@@ -460,9 +472,7 @@ def unstruct (E : Env) : Nat → Option PyTy → PyVal → Except Err Json
     | .dict kt vt =>
       (match v with
        | .dict kvs => do
-         let ps ← mapE (fun (kv : PyVal × PyVal) => do
-           let k ← dictKey (← unstruct E n (some kt) kv.1)
-           .ok (k, ← unstruct E n (some vt) kv.2)) kvs
+         let ps ← mapE (unstructEntry (unstruct E n (some kt)) (unstruct E n (some vt))) kvs
          .ok (.obj ps)
        | _ => .error (.typeError "mapping handler on a non-dict"))
     | .tuple ts =>
